@@ -86,11 +86,11 @@ template <class T> const T *wrap(const Obj *o) {
   if (!o) return nullptr;
   static std::map<const Obj *, T> cache;
   auto it = cache.find(o);
-  if (it == cache.end()) { T t; t.o = o; it = cache.emplace(o, t).first; }
+  if (it == cache.end()) { T t; t.o = o; t.mon_fill(); it = cache.emplace(o, t).first; }
   return &it->second;
 }
 template <class T> std::vector<const T *> wrap_all(const std::vector<const Obj *> &v) { std::vector<const T *> r; for (auto o : v) r.push_back(wrap<T>(o)); return r; }
-template <class T> std::vector<T> wrap_all_val(const std::vector<const Obj *> &v) { std::vector<T> r; for (auto o : v) { T t; t.o = o; r.push_back(t); } return r; }
+template <class T> std::vector<T> wrap_all_val(const std::vector<const Obj *> &v) { std::vector<T> r; for (auto o : v) { T t; t.o = o; t.mon_fill(); r.push_back(t); } return r; }
 
 inline std::vector<std::string> split(const std::string &s, char c) { std::vector<std::string> r; std::string t; std::istringstream ss(s); while (std::getline(ss, t, c)) r.push_back(t); return r; }
 
